@@ -236,6 +236,35 @@ func init() {
 		}
 		fmt.Fprintf(w, "def r0RunningCol : Bool := %s\n", c04bool(mentions("xlsxWorksheet", "checkSheetR0", "col = prevCol + 1")))
 		fmt.Fprintf(w, "def r0KeepsRowAttrs : Bool := %s\n", c04bool(mentions("xlsxWorksheet", "checkSheet", "*slot = r0Row")))
+		// every function that renders a cell does it through getValueFrom
+		var callers []string
+		for _, f := range files {
+			for _, d := range f.Decls {
+				fd, ok := d.(*ast.FuncDecl)
+				if !ok || fd.Body == nil || fd.Name.Name == "getValueFrom" {
+					continue
+				}
+				if c04calls(fd.Body, "getValueFrom") {
+					recv := ""
+					if fd.Recv != nil && len(fd.Recv.List) == 1 {
+						t := fd.Recv.List[0].Type
+						if st, ok := t.(*ast.StarExpr); ok {
+							t = st.X
+						}
+						if id, ok := t.(*ast.Ident); ok {
+							recv = id.Name + "."
+						}
+					}
+					callers = append(callers, recv+fd.Name.Name)
+				}
+			}
+		}
+		sort.Strings(callers)
+		qs := make([]string, len(callers))
+		for i, x := range callers {
+			qs[i] = leanStr(x)
+		}
+		fmt.Fprintf(w, "def getValueFromCallers : List String := [%s]\n", strings.Join(qs, ", "))
 		fmt.Fprintf(w, "def getRowsReturnsMaxRows : Bool := %s\n", c04bool(mentions("File", "GetRows", "err == ErrMaxRows") && mentions("File", "GetRows", "rows.Error()")))
 		fmt.Fprintf(w, "def checkSheetBoundsRows : Bool := %s\n", c04bool(mentions("xlsxWorksheet", "checkSheet", "r.R > TotalRows")))
 		fmt.Fprintf(w, "def checkRowSizesByGreatest : Bool := %s\n", c04bool(mentions("xlsxWorksheet", "checkRow", "colNum > lastCol")))
